@@ -323,7 +323,8 @@ class YamlItem(pytest.Item):
         actual_value = self.simulation.calculate(variable_name, period)
 
         if entity_index is not None:
-            actual_value = actual_value[entity_index]
+            # Keep an array, so that enums stay decodable.
+            actual_value = actual_value[[entity_index]]
 
         return assert_near(
             actual_value,
